@@ -25,6 +25,8 @@ load_string(0) for a non-final field ("the rest" by API definition: an empty str
 python type of returned numbers (True == 1 accepted); identity of returned Cell objects (structure compared).
 
 Development aid: env VERIF_IGNORE_SIG='sig1,sig2' makes the listed signatures count as passed (default: none).
+Signatures listed for C06 in known_findings.json are read (never written) so that a case reports an unlisted Fail
+in preference to a listed one - otherwise a listed store-side finding would mask the load-side findings behind it.
 """
 import hashlib
 import os
@@ -468,12 +470,29 @@ def _clip(s, n=96):
 
 
 def check(case):
+    """first recorded Fail that is neither ignored (env) nor a listed known finding; a case whose only failures are
+    known findings returns the first of them, so that the core counts it as KNOWN-FINDING.  (Returning a known Fail
+    while an unknown one sits behind it in the same case would hide the unknown one for good: a zero-length external
+    address fails on the store side, the load side and the peek side, always in that order.)"""
     fails = []
     _run(case['ops'], fails)
+    fails = [f for f in fails if f.signature not in IGNORE]
+    known = _known()
     for f in fails:
-        if f.signature not in IGNORE:
+        if f.signature not in known:
             return f
-    return None
+    return fails[0] if fails else None
+
+
+_KNOWN = None
+
+
+def _known():
+    global _KNOWN
+    if _KNOWN is None:          # configuration, read once per process; never written here
+        from harness.core import load_known
+        _KNOWN = frozenset(load_known('C06'))
+    return _KNOWN
 
 
 # --------------------------------------------------------------------------------------------------
